@@ -3,6 +3,7 @@ import ast
 import re
 
 from ..core import AnalysisError
+from .shared_py import inn
 from ..pyfront import unparse
 from .. import templ, predabs
 from . import shared_gen as G
@@ -84,7 +85,7 @@ def size_ladder(ctx, L):
     grp = chains[1]
     src = re.sub(r'\s+', ' ', unparse(grp))
     L.check(re.sub(r'\s+', '', unparse(grp.test)) == 'm.padding<0' and "'prophy::detail::nearest<{0}>(\\n'.format(abs(m.padding))" in src
-            and 'if bytes_: elems += [str(bytes_)] bytes_ = 0' in src and "' + '.join(elems)" in src, 'F10.size-align-group',
+            and inn('if bytes_: elems += [str(bytes_)] bytes_ = 0', src) and inn("' + '.join(elems)", src), 'F10.size-align-group',
             'get_byte_size|nearest-group', f.site(grp),
             'every member carrying a negative marker must close a prophy::detail::nearest<|padding|>( sum so far ) group - the '
             'counterpart of `pos = align<N>(pos)` in encode', src[:300])
@@ -93,8 +94,8 @@ def size_ladder(ctx, L):
             'get_byte_size|tail', f.site(), 'remaining static bytes are added and all terms summed', str(tail))
     gb = m.func('_get_byte_size')
     s = re.sub(r'\s+', ' ', unparse(gb.node))
-    L.check('if isinstance(node, model.Enum): return DISC_SIZE' in s and 'return BUILTIN_SIZES.get(node.type_name)' in s
-            and 'return node.byte_size' in s and 'node = _get_leaf(node)' in s, 'F10.size-term', '_get_byte_size', gb.site(),
+    L.check(inn('if isinstance(node, model.Enum): return DISC_SIZE', s) and inn('return BUILTIN_SIZES.get(node.type_name)', s)
+            and inn('return node.byte_size', s) and inn('node = _get_leaf(node)', s), 'F10.size-term', '_get_byte_size', gb.site(),
             'element size: enums 4, builtins by table, composites by byte_size, through typedef chains', s[:200])
 
 
